@@ -27,7 +27,9 @@ DefRules == {"duplicate_type_name", "type_name_casing", "field_name_casing", "du
              "enum_base_not_integer", "flags_value_out_of_range", "cyclic_reference", "cyclic_alias", "cyclic_via_generic_argument",
              "cyclic_via_imported_generic", "unused_type_parameter",
              "type_parameter_casing", "computed_unknown_name", "computed_type_error", "computed_duplicate_name", "generic_enum",
-             "generic_protocol", "reserved_type_name"}
+             "generic_protocol", "reserved_type_name",
+             \* names that differ only in the case of letters inside a word become one identifier in generated code
+             "field_names_not_distinct", "computed_field_not_distinct", "step_names_not_distinct", "enum_symbols_not_distinct"}
 Rules == TypeRules \cup DefRules
 
 Locations == {"main", "main_second_file", "import1", "import2", "version", "version_import"}
